@@ -174,12 +174,14 @@ def finish(res, spec):
     if not spec.get("no_clean_floor") and ("requests_monitored_in_clean_state" in res.stats or "requests_monitored_after_known_defect" in res.stats):
         spec = dict(spec)
         spec["floors"] = dict(spec.get("floors", {}), requests_monitored_in_clean_state=5000)
-    new, kf = [], {}
+    new, kf, kfsig = [], {}, {}
     for v in res.viol:
         k = match_known(known, v)
         if k:
             kf.setdefault(k["id"], [k, 0])
             kf[k["id"]][1] += 1
+            key = "%s: %s | %s" % (k["id"], v["check"], v.get("sig"))
+            kfsig[key] = kfsig.get(key, 0) + 1
         else:
             new.append(v)
     floors = spec.get("floors", {})
@@ -194,6 +196,7 @@ def finish(res, spec):
         "samples": res.samples[:3] if res.samples else [{"note": "no sample recorded"}],
         "observed": {k: res.stats[k] for k in sorted(res.stats)},
         "known_findings_seen": {i: n for i, (k, n) in kf.items()},
+        "known_findings_by_signature": {k: kfsig[k] for k in sorted(kfsig)},
         "jobs": res.extra.get("jobs", 0),
     }
     for k, v in res.extra.items():
